@@ -124,7 +124,8 @@ function_implementations!(
         FromUnixtime,
         Like,
         Ilike,
-        IsBool
+        IsBool,
+        Choose
     ],
     [Case, Position, SubstrWithSize, RegexpReplace, DatetimeDiff],
     [RegexpExtract],
